@@ -56,9 +56,14 @@ def process_pool(n):
     return _ppools[n]
 
 
-def shutdown_pools():
+def shutdown_pools(wait=False):
     for p in list(_ppools.values()):
-        p.shutdown(wait=False, cancel_futures=True)
+        procs = list(getattr(p, "_processes", {}).values()) if wait else []
+        p.shutdown(wait=wait, cancel_futures=True)
+        for pr in procs:  # (wait=True: make sure no worker outlives the caller)
+            pr.join(timeout=10)
+            if pr.is_alive():
+                pr.kill()
     _ppools.clear()
 
 
